@@ -11,7 +11,7 @@ open RRule RrPy
 
 /-! ### `set.add` in a loop = the model's `dedup` -/
 
-theorem dedup_eq_foldl (xs acc : List Int) : dedup acc xs = xs.foldl setAdd acc.reverse := by
+theorem dedup_eq_foldl {α} [BEq α] [LawfulBEq α] (xs acc : List α) : dedup acc xs = xs.foldl setAdd acc.reverse := by
   induction xs generalizing acc with
   | nil => simp [dedup]
   | cons x xs ih =>
